@@ -241,7 +241,7 @@ Definition is_ok (o : hout) : bool := match o with HOk _ _ => true | _ => false 
 
 Definition apply_oracles (gone : string -> bool) (vers : list string) (ign : string -> path -> bool) (prop : string) (s : schema) (tr : typeref) (live : tv)
   (mobs : list (string * (string * bool * list path))) (mgr ver : string) (cfg : value)
-  (noforce force reapply rion : hout) : list string :=
+  (noforce force reapply rion : hout) (prevcfg : option value) : list string :=
   let lv := snd live in
   let mf := managed_of mobs in
   let isplain := plain cfg in
@@ -297,7 +297,18 @@ Definition apply_oracles (gone : string -> bool) (vers : list string) (ign : str
     | Some res, Some mafter =>
         if isplain && dup_free s tr lv then
           let cfgnodes := map fst (nodes s tr cfg) in
-          let gone := filter (fun p => aband p && negb (existsb (fun n => is_prefix p n) cfgnodes)) (ps_elems last) in
+          (* what the manager APPLIED before: its record if the record is an applied one;
+             after an intervening update by the same identity, the part of the record that
+             lies in the field set of the configuration it applied last *)
+          let applied_before (p : path) : bool :=
+            match assoc_get mgr mobs with
+            | Some (_, true, _) => true
+            | _ => match prevcfg with
+                   | Some pc => match to_field_set s tr pc with Some f => ps_has p f | None => false end
+                   | None => false
+                   end
+            end in
+          let gone := filter (fun p => aband p && applied_before p && negb (existsb (fun n => is_prefix p n) cfgnodes)) (ps_elems last) in
           chk (forallb (fun p => negb (present s tr res p)) gone)
               "prop C03 a field the manager stopped applying (and nobody else owns) is absent" @@
           chk (forallb (fun p => forallb (fun o : string * (string * bool * list path) =>
@@ -440,7 +451,7 @@ Definition apply_oracles (gone : string -> bool) (vers : list string) (ign : str
   else [].
 
 Definition run_hist_apply (prop : string) (schemas : list (string * schema)) (hc : hconf)
-  (live mobs mgr ver cfg noforce force reapply rion : sexp) : outcome :=
+  (live mobs mgr ver cfg noforce force reapply rion prev : sexp) : outcome :=
   match dec_tv live, dec_managed mobs, mgr, ver, dec_value cfg with
   | Some live, Some mobs, SAtom mgr, SAtom ver, Some cfg =>
       match dec_hout noforce, dec_hout force, dec_hout reapply, dec_hout rion with
@@ -460,7 +471,8 @@ Definition run_hist_apply (prop : string) (schemas : list (string * schema)) (hc
                 chk (ures_matches (apply_op c live' (ver, cfg) ver (managed_of m) mgr false) reapply) "corr re-apply"
             | _, _ => []
             end in
-          let prop_msgs := apply_oracles (fun v => existsb (String.eqb v) (hc_missing hc)) (map hv_name (hc_versions hc)) (ignored_at_h hc) prop s tr live mobs mgr ver cfg noforce force reapply rion in
+          let prop_msgs := apply_oracles (fun v => existsb (String.eqb v) (hc_missing hc)) (map hv_name (hc_versions hc)) (ignored_at_h hc) prop s tr live mobs mgr ver cfg noforce force reapply rion
+                             (match prev with SAtom "-" => None | _ => dec_value prev end) in
           let nt :=
             (* >= 2 managers before the step and the apply drops or changes something *)
             if Nat.leb 2 (List.length mobs) then 1 else 0 in
